@@ -179,6 +179,12 @@ def preppedSubs (d : Desc) : List PSub :=
 def roundtripDomain (d : Desc) : Bool := (preppedSubs d).all (subDomain d.tensors)
 def noSurgery (d : Desc) : Bool := (preppedSubs d).all (subSimple d.tensors)
 
+/-- the error of a failed read / normalisation ("" for success) -/
+def errorOf (r : Except String Desc) : String :=
+  match r with
+  | .error e => e
+  | .ok _ => ""
+
 /-! ## general lemmas -/
 
 theorem mapM_eq_of_index {α β : Type} (f : α → Except String β) : ∀ (l : List α) (r : List β), r.length = l.length →
